@@ -489,3 +489,59 @@ def lemma_consuming_methods_advance(model: Model, run: Run, rule: str = "L11-con
             run.fail(Finding(rule, m.qualname, f"{name}|path-without-advance", f"ASN1Reader.{name} can return without re-binding the view it reads from: the value it was asked to consume "
                              "is still at the front of the reader, and a decode loop that relies on the call to make progress does not terminate", model.loc(m.module, m.node)))
     run.floor("consuming reader methods", n, 6)
+
+
+def lemma_no_deferred_loop_capture(model: Model, run: Run, modules, rule: str, consequence: str) -> None:
+    """A lambda / nested function written inside a loop that reads a name the loop re-binds (the loop variable, or a local
+    assigned in the body) sees the value of the *last* iteration when it is called later.  When the closure is stored for
+    later (appended, put in a container, returned, yielded) instead of being called in the same iteration, every stored
+    closure works on the last iteration's value.  Names bound as the closure's own parameters (the `x=x` idiom) are not
+    captured."""
+    n = 0
+    for fq, fi in sorted(model.functions.items()):
+        if fi.module not in modules or isinstance(fi.node, ast.Lambda) or "<locals>" in fq:
+            continue
+        for loop in [x for x in walk_no_nested(fi.node) if isinstance(x, (ast.For, ast.While))]:
+            rebound = {x.id for b in loop.body for x in ast.walk(b) if isinstance(x, ast.Name) and isinstance(x.ctx, ast.Store)}
+            if isinstance(loop, ast.For):
+                rebound |= {x.id for x in ast.walk(loop.target) if isinstance(x, ast.Name)}
+            if not rebound:
+                continue
+            for st in loop.body:
+                for x in ast.walk(st):
+                    if not isinstance(x, (ast.Lambda, ast.FunctionDef)) or x is fi.node:
+                        continue
+                    a = x.args
+                    own = {p.arg for p in a.posonlyargs + a.args + a.kwonlyargs} | ({a.vararg.arg} if a.vararg else set()) | ({a.kwarg.arg} if a.kwarg else set())
+                    body = [x.body] if isinstance(x, ast.Lambda) else x.body
+                    own |= {y.id for b in body for y in ast.walk(b) if isinstance(y, ast.Name) and isinstance(y.ctx, ast.Store)}
+                    free = {y.id for b in body for y in ast.walk(b) if isinstance(y, ast.Name) and isinstance(y.ctx, ast.Load)} - own
+                    captured = sorted(free & rebound)
+                    if not captured:
+                        continue
+                    n += 1
+                    # is the closure kept for later?
+                    stored = None
+                    if isinstance(x, ast.Lambda):
+                        for y in ast.walk(st):
+                            if isinstance(y, ast.Call) and isinstance(y.func, ast.Attribute) and y.func.attr in ("append", "extend", "insert", "add", "setdefault", "appendleft", "put") and \
+                                    any(z is x for a_ in list(y.args) + [k.value for k in y.keywords] for z in ast.walk(a_)):
+                                stored = y
+                            elif isinstance(y, (ast.Assign, ast.AnnAssign)) and y.value is not None and any(z is x for z in ast.walk(y.value)) and \
+                                    (any(isinstance(t_, (ast.Subscript, ast.Attribute)) for t_ in (y.targets if isinstance(y, ast.Assign) else [y.target])) or
+                                     isinstance(y.value, (ast.List, ast.Tuple, ast.Dict, ast.Set))):
+                                stored = y
+                            elif isinstance(y, (ast.Yield, ast.Return)) and y.value is not None and any(z is x for z in ast.walk(y.value)):
+                                stored = y
+                    else:
+                        # a nested def: kept when its name is appended / stored / returned in the loop
+                        for y in ast.walk(st):
+                            if isinstance(y, ast.Call) and isinstance(y.func, ast.Attribute) and y.func.attr in ("append", "extend", "insert", "add", "setdefault") and \
+                                    any(isinstance(z, ast.Name) and z.id == x.name for a_ in y.args for z in ast.walk(a_)):
+                                stored = y
+                    ok = stored is None
+                    run.ob(rule, ok, {"function": fq.split("sansldap.")[-1], "captures": captured})
+                    if not ok:
+                        run.fail(Finding(rule, fq, f"{','.join(captured)}|{norm(stored)[:60]}", f"{fi.name} keeps a closure for later (`{norm(stored)[:60]}`) that reads `{', '.join(captured)}`, which the loop "
+                                         f"re-binds on every iteration: when the closures run they all see the last iteration's value; {consequence}", model.loc(fi.module, stored)))
+    run.ob(rule, True, {"closures_in_loops": n})
